@@ -60,7 +60,7 @@ def interact_spawn(b, logs=()):
         b.ghost('log:' + lf, '')
         b.ghost('unflushed:' + lf, False)
     sp = b.obj('self', PTY, sealed=False, **f)
-    for k in ('uout', 'want_uout', 'cin', 'want_cin', 'rawin'):
+    for k in ('uout', 'want_uout', 'cin', 'want_cin', 'rawin', 'logged_send', 'logged_read'):
         b.ghost(k, '')
     b.ghost('esc', False)
     b.ghost('Kos', b.str('Kos0', 'b'))
@@ -216,6 +216,12 @@ class LogOracle(Contract):
             return [Raises('TypeError')]
         return [Ret(T.NoneT)]
 
+    def effects(self, v):
+        # what _log was asked to record, per direction (C11 during interact())
+        d = v.old.direction
+        key = 'logged_send' if (d == 'send' or eq(d, 'send') is True) else 'logged_read'
+        v.g[key] = cat(v.g[key], v.old.s)
+
 
 # ---- __interact_writen --------------------------------------------------------------------------------------------
 class WritenLoop(LoopSpec):
@@ -277,7 +283,11 @@ def copy_inv(v, g):
     return [('C15:child-output-reaches-the-user-unchanged-and-in-order', eq(g['uout'], g['want_uout'])),
             ('C15:keystrokes-reach-the-child-unchanged-and-in-order', prefix_of(g['cin'], g['want_cin'])),
             ('C15:no-keystroke-is-dropped-while-the-child-lives', Or(eq(g['cin'], g['want_cin']), eq(g['peer'], 2))),
-            ('peer-state', And(0 <= g['peer'], g['peer'] <= 2))]
+            ('peer-state', And(0 <= g['peer'], g['peer'] <= 2)),
+            # C11 during interact(): the read log gets what the user is shown, the send log what is forwarded to the
+            # child - in particular neither the escape character nor what follows it
+            ('C11+C15:read-log-is-what-the-user-is-shown', eq(g['logged_read'], g['want_uout'])),
+            ('C11+C15:send-log-is-what-is-forwarded-to-the-child', eq(g['logged_send'], g['want_cin']))]
 
 
 class CopyLoop(LoopSpec):
@@ -285,7 +295,7 @@ class CopyLoop(LoopSpec):
         return {'data': T.Bytes, 'i': T.Int}
 
     ghost = {'uout': T.Bytes, 'want_uout': T.Bytes, 'cin': T.Bytes, 'want_cin': T.Bytes, 'Kos': T.Bytes, 'peer': T.Int,
-             'rawin': T.Bytes, 'esc': T.Bool}
+             'rawin': T.Bytes, 'esc': T.Bool, 'logged_send': T.Bytes, 'logged_read': T.Bytes}
 
     def ghost_extra(self, v):
         return {}
@@ -296,7 +306,7 @@ class CopyLoop(LoopSpec):
 
 class InteractCopy(Contract):
     name = COPY
-    props = ('C15',)
+    props = ('C15', 'C11')
     standin = False
     context = CTX
     loops = {0: CopyLoop()}
